@@ -16,7 +16,8 @@ from common import coq_list, coq_N
 
 IMPORTS = 'From XV Require Import Base Tree SchemaPath.'
 NS = 'urn:p'
-NAMES = {'root': 1, 'a': 2, 'b': 3, 'c': 4, 'item': 5, 'g': 6, 'h': 7, 'm': 8, 'leaf': 9, 'deep': 10, 'qn': 11}
+NAMES = {'root': 1, 'a': 2, 'b': 3, 'c': 4, 'item': 5, 'g': 6, 'h': 7, 'm': 8, 'leaf': 9, 'deep': 10, 'qn': 11,
+         'hc': 12, 'mc': 13, 'v': 14, 'x': 15}
 TYPES = {'xs:int': 11, 'xs:date': 12, 'xs:string': 13, 'xs:boolean': 14, 'xs:QName': 15, 'complex': 20}
 
 
@@ -39,6 +40,11 @@ def schema_xsd(ns, uri=NS, xsd_default=False):
             '<xs:element name="item" type="xs:string"/>'                     # a global with the repeated local name
             '<xs:element name="g" type="xs:boolean"/>'
             '<xs:element name="h" type="xs:string"/><xs:element name="m" type="xs:string" substitutionGroup="%sh"/>'
+            # a substitution member with a type of its own (extension of the head's type): paths that go through it
+            '<xs:complexType name="HT"><xs:sequence><xs:element name="v" type="xs:string" minOccurs="0"/></xs:sequence></xs:complexType>'
+            '<xs:complexType name="MT"><xs:complexContent><xs:extension base="P:HT"><xs:sequence><xs:element name="x" type="xs:int" '
+            'minOccurs="0"/></xs:sequence></xs:extension></xs:complexContent></xs:complexType>'
+            '<xs:element name="hc" type="P:HT"/><xs:element name="mc" type="P:MT" substitutionGroup="P:hc"/>'
             '<xs:complexType name="deepType"><xs:sequence><xs:element name="leaf" type="xs:int" maxOccurs="unbounded"/>'
             '<xs:element name="deep" type="%sdeepType" minOccurs="0"/></xs:sequence></xs:complexType>'
             '<xs:element name="root"><xs:complexType><xs:sequence>'
@@ -52,10 +58,11 @@ def schema_xsd(ns, uri=NS, xsd_default=False):
             '</xs:sequence></xs:complexType></xs:element>'
             '<xs:element name="c" minOccurs="0" maxOccurs="unbounded"><xs:complexType><xs:sequence>'
             '<xs:element ref="%sh" maxOccurs="unbounded"/><xs:element name="deep" type="%sdeepType" minOccurs="0"/>'
+            '<xs:element ref="P:hc" minOccurs="0" maxOccurs="unbounded"/>'
             '</xs:sequence></xs:complexType>'
             # a constraint on the middle element of three-step paths (c/deep/leaf), several scope instances
             '<xs:unique name="UC"><xs:selector xpath="%sdeep/%sleaf"/><xs:field xpath="."/></xs:unique></xs:element>'
-            '</xs:sequence></xs:complexType></xs:element></xs:schema>' % (tns, p, p, p, p, p, p, p, p))
+            '</xs:sequence></xs:complexType></xs:element></xs:schema>' % (tns, p, p, p, p, p, p, p, p)).replace('P:', p)
 
 
 # the declaration tree of the schema as the model sees it (deepType unfolded to a fixed depth)
@@ -68,7 +75,8 @@ def decl_tree():
     return ('root', 'complex', [
         ('a', 'complex', [('item', 'xs:int', [])]),
         ('b', 'complex', [('item', 'xs:date', []), ('g', 'xs:boolean', []), ('qn', 'xs:QName', [])]),
-        ('c', 'complex', [('h', 'xs:string', []), ('m', 'xs:string', []), ('deep', 'complex', deep(4))]),
+        ('c', 'complex', [('h', 'xs:string', []), ('m', 'xs:string', []), ('deep', 'complex', deep(4)),
+                          ('hc', 'complex', [('v', 'xs:string', [])]), ('mc', 'complex', [('v', 'xs:string', []), ('x', 'xs:int', [])])]),
     ])
 
 
@@ -102,6 +110,11 @@ def gen_doc(rng, invalid=False, simple=False):
         ks = [el(rng.choice(['h', 'm']), 's%d' % i) for i in range(rng.randint(1, 3))]
         if rng.random() < 0.7:
             ks.append(el('deep', kids=deep(3)))
+        for _k in range(rng.choice([0, 0, 1, 2])):
+            if rng.random() < 0.5:
+                ks.append(el('hc', kids=[el('v', 'w')] if rng.random() < 0.7 else []))
+            else:
+                ks.append(el('mc', kids=([el('v', 'w')] if rng.random() < 0.5 else []) + ([el('x', str(rng.randint(0, 9)))] if rng.random() < 0.7 else [])))
         kids.append(el('c', kids=ks))
     doc = el('root', kids=kids)
     if invalid:
@@ -233,11 +246,12 @@ def subject(case):
             try:
                 found = s.find(p, namespaces=nsmap)
                 u = used.get(id(elems[a]))
-                if found is not None and u is not None and found is not u and found.name != elems[a].tag:
-                    # a substitution-group member: find() gives the head particle, get_element() resolves the member
+                if u is not None and found is not u and (found is None or found.name != elems[a].tag):
+                    # a substitution-group member: find() gives the head particle (and nothing for the children that only the
+                    # member's type declares), get_element() - the lookup that validation uses - resolves the member
                     found = s.get_element(elems[a].tag, p, nsmap)
-                r['find'] = None if found is None else [found.name, found.type.name or ('complex' if found.type.is_complex() else '?')]
-                r['used'] = None if u is None else [u.name, u.type.name or ('complex' if u.type.is_complex() else '?')]
+                r['find'] = None if found is None else [found.name, 'complex' if found.type.is_complex() else (found.type.name or '?')]
+                r['used'] = None if u is None else [u.name, 'complex' if u.type.is_complex() else (u.type.name or '?')]
                 r['same_decl'] = (found is u) or (found is not None and u is not None and found.type is u.type and found.name == u.name)
             except Exception as e:  # noqa
                 r['find_exc'] = common.exc_class(e) + ': ' + str(e)[:80]
@@ -267,8 +281,8 @@ def subject(case):
                 u = used.get(id(elems[a]))
                 if u is not None and not ((g is u) or (g is not None and g.type is u.type and g.name == u.name)):
                     r['same_decl'] = False
-                    r['find'] = None if g is None else [g.name, g.type.name or 'complex']
-                    r['used'] = [u.name, u.type.name or 'complex']
+                    r['find'] = None if g is None else [g.name, 'complex' if g.type.is_complex() else g.type.name]
+                    r['used'] = [u.name, 'complex' if u.type.is_complex() else u.type.name]
             except Exception as e:  # noqa
                 r['find_exc'] = common.exc_class(e) + ': ' + str(e)[:80]
             try:
